@@ -20,6 +20,9 @@ type lexeme struct {
 type c13Case struct {
 	Tok     string   `json:"tok"` // generic | expression
 	Lexemes []lexeme `json:"lexemes"`
+	// Used (user configurations only): the tokenizer object tokenized this very text before and between the calls
+	// that configure it
+	Used bool `json:"used,omitempty"`
 }
 
 func lexString(ls []lexeme) string {
@@ -584,7 +587,7 @@ func TestC13_Rapid(t *testing.T) {
 			rec.Excluded(1)
 			rt.Skip("sequence cannot be separated")
 		}
-		if c13Run(rec, c13Case{kind, final}) {
+		if c13Run(rec, c13Case{Tok: kind, Lexemes: final}) {
 			rt.Fatalf("C13 violated")
 		}
 	})
@@ -650,7 +653,7 @@ func TestC13_Exhaustive(t *testing.T) {
 					rec.Excluded(1)
 					continue
 				}
-				c13Run(rec, c13Case{kind, final})
+				c13Run(rec, c13Case{Tok: kind, Lexemes: final})
 			}
 		})
 	}
@@ -676,7 +679,7 @@ func TestC13_EnumCustomConfig(t *testing.T) {
 		"generic+ws": {{{W, "你好"}}, {{S, "。"}}, {{W, "世界"}}, {{W, "x"}}, {{S, "\n"}}, {{B, " "}}, {{I, "12"}}, {{S, "　"}}, {{W, "é"}}},
 		"generic+sym": {{{S, "..."}}, {{S, "."}, {S, "."}}, {{W, "a"}}, {{S, "=:~"}}, {{S, "="}, {S, ":"}}, {{S, "-->"}}, {{B, " "}}, {{S, "<=>"}}, {{S, "<="}}, {{S, "≠≠"}}, {{S, "≠"}}, {{I, "7"}},
 			// a four- and a six-character symbol whose inner prefixes are not registered, whole and cut short
-			{{P, ";"}}, {{P, ";"}, {P, ";"}}, {{P, "¤"}},
+			{{P, ";"}}, {{P, ";"}, {P, ";"}}, {{P, "¤"}}, {{S, "::"}}, {{S, "::="}}, {{S, ":"}},
 			{{S, "<!--"}}, {{S, "<"}, {S, "!"}}, {{S, "<"}, {S, "!"}, {S, "-"}, {W, "b"}}, {{S, "=:~=:~"}}, {{S, "=:~"}, {S, "="}, {S, ":"}, {B, " "}}},
 		"expression+dis": {{{W, "x"}}, {{S, "。"}}, {{W, "y1"}}, {{S, "+"}}, {{I, "1"}}, {{B, " "}}, {{W, "é中"}}, {{S, "<="}}},
 	}
@@ -692,15 +695,6 @@ func TestC13_EnumCustomConfig(t *testing.T) {
 		}
 	}
 	rec.Bounds = fmt.Sprintf("%d lexeme sequences: every arrangement of up to three pieces of a small lexeme inventory under three user configurations", len(cases))
-	build := func(cfg string) tokenizers.ITokenizer {
-		switch cfg {
-		case "expression+dis":
-			t := newTokenizer("expression")
-			t.WordState().SetWordChars(0x3000, 0x303f, false)
-			return t
-		}
-		return newTokenizer(cfg)
-	}
 	for _, cc := range cases {
 		// keep only sequences the definitions leave unambiguous: neighbours that would merge are skipped
 		ok := true
@@ -720,7 +714,7 @@ func TestC13_EnumCustomConfig(t *testing.T) {
 		registered := map[string]int{"<>": S, "<=": S, ">=": S}
 		switch cc.cfg {
 		case "generic+sym":
-			for _, s := range []string{"...", "=:~", "-->", "::=", "≠≠", "<=>", "<!--", "=:~=:~"} {
+			for _, s := range []string{"...", "=:~", "-->", "::=", "≠≠", "<=>", "<!--", "=:~=:~", "::"} {
 				registered[s] = S
 			}
 			registered[";"], registered["¤"] = P, P
@@ -740,36 +734,38 @@ func TestC13_EnumCustomConfig(t *testing.T) {
 			rec.Excluded(1)
 			continue
 		}
-		c := c13Case{cc.cfg, cc.ls}
-		nt, _ := c13NonTrivial(c)
-		rec.Case(jsonStr(c), nt || len(cc.ls) >= 2, func() interface{} { return c }, "cfg:"+cc.cfg)
-		input := joinLexemes(cc.ls)
-		var f *evid.Fail
-		toks, f := tokenizeCapped(build(cc.cfg), input, 0)
-		if f == nil {
-			f = c13Compare(c, input, toks)
-		}
-		if f != nil {
-			rec.Fail(f, c)
+		for _, used := range []bool{false, true} {
+			c := c13Case{Tok: cc.cfg, Lexemes: cc.ls, Used: used}
+			nt, _ := c13NonTrivial(c)
+			rec.Case(jsonStr(c), nt || len(cc.ls) >= 2, func() interface{} { return c }, "cfg:"+cc.cfg)
+			if f := checkC13Custom(c); f != nil {
+				rec.Fail(f, c)
+			}
 		}
 	}
 	requireLabels(t, rec, "cfg:generic+ws", "cfg:generic+sym", "cfg:expression+dis")
 }
 
-func init() {
-	regReplay("C13.custom", func(c c13Case) *evid.Fail {
-		var t tokenizers.ITokenizer
-		if c.Tok == "expression+dis" {
-			t = newTokenizer("expression")
-			t.WordState().SetWordChars(0x3000, 0x303f, false)
-		} else {
-			t = newTokenizer(c.Tok)
-		}
-		input := joinLexemes(c.Lexemes)
-		toks, f := tokenizeCapped(t, input, 0)
-		if f != nil {
-			return f
-		}
-		return c13Compare(c, input, toks)
-	})
+func checkC13Custom(c c13Case) *evid.Fail {
+	input := joinLexemes(c.Lexemes)
+	warm := ""
+	if c.Used {
+		warm = input
+	}
+	var t tokenizers.ITokenizer
+	if g := guard(func() { t = newTokenizerUsed(c.Tok, warm) }); g != nil {
+		g.Msg = fmt.Sprintf("configuring a %s tokenizer that is in use on %q: %s", c.Tok, input, g.Msg)
+		return g
+	}
+	toks, f := tokenizeCapped(t, input, 0)
+	if f != nil {
+		return f
+	}
+	f = c13Compare(c, input, toks)
+	if f != nil && c.Used {
+		f.Msg = "tokenizer used on this text before and between its configuration calls: " + f.Msg
+	}
+	return f
 }
+
+func init() { regReplay("C13.custom", checkC13Custom) }
